@@ -1683,6 +1683,19 @@ func (t *tScreen) parseXtermMouse(buf *bytes.Buffer, evs *[]Event) (bool, bool) 
 	return true, false
 }
 
+// flushEscape delivers an ESC that was held back to become the Alt modifier
+// of the next key, when what followed is a report that cannot carry one
+// (focus, mouse, paste bracket, clipboard).  The report's events start at
+// index at; the Esc key goes in front of them.
+func (t *tScreen) flushEscape(evs *[]Event, at int) {
+	if t.escaped {
+		t.escaped = false
+		*evs = append(*evs, nil)
+		copy((*evs)[at+1:], (*evs)[at:])
+		(*evs)[at] = NewEventKey(KeyEsc, 0, ModNone)
+	}
+}
+
 func (t *tScreen) parseFunctionKey(buf *bytes.Buffer, evs *[]Event) (bool, bool) {
 	b := buf.Bytes()
 	partial := false
@@ -1696,6 +1709,10 @@ func (t *tScreen) parseFunctionKey(buf *bytes.Buffer, evs *[]Event) (bool, bool)
 			var r rune
 			if len(esc) == 1 {
 				r = rune(b[0])
+			}
+			if k.key == keyPasteStart || k.key == keyPasteEnd {
+				// a paste bracket cannot carry Alt: the ESC before it was a key
+				t.flushEscape(evs, len(*evs))
 			}
 			mod := k.mod
 			if t.escaped {
@@ -1801,6 +1818,7 @@ func (t *tScreen) collectEventsFromInput(buf *bytes.Buffer, expire bool) []Event
 		}
 
 		partials := 0
+		nres := len(res)
 
 		if part, comp := t.parseRune(buf, &res); comp {
 			continue
@@ -1815,6 +1833,7 @@ func (t *tScreen) collectEventsFromInput(buf *bytes.Buffer, expire bool) []Event
 		}
 
 		if part, comp := t.parseFocus(buf, &res); comp {
+			t.flushEscape(&res, nres)
 			continue
 		} else if part {
 			partials++
@@ -1825,12 +1844,14 @@ func (t *tScreen) collectEventsFromInput(buf *bytes.Buffer, expire bool) []Event
 
 		if t.ti.Mouse != "" {
 			if part, comp := t.parseXtermMouse(buf, &res); comp {
+				t.flushEscape(&res, nres)
 				continue
 			} else if part {
 				partials++
 			}
 
 			if part, comp := t.parseSgrMouse(buf, &res); comp {
+				t.flushEscape(&res, nres)
 				continue
 			} else if part {
 				partials++
@@ -1839,6 +1860,7 @@ func (t *tScreen) collectEventsFromInput(buf *bytes.Buffer, expire bool) []Event
 
 		if t.setClipboard != "" {
 			if part, comp := t.parseClipboard(buf, &res); comp {
+				t.flushEscape(&res, nres)
 				continue
 			} else if part {
 				partials++
@@ -1847,7 +1869,8 @@ func (t *tScreen) collectEventsFromInput(buf *bytes.Buffer, expire bool) []Event
 
 		if partials == 0 || expire {
 			if b[0] == '\x1b' {
-				if len(b) == 1 {
+				if len(b) == 1 || t.escaped {
+					// (a second ESC that starts nothing: the pair is Alt+Esc)
 					mod := ModNone
 					if t.escaped {
 						mod = ModAlt
